@@ -344,10 +344,14 @@ def gen_bsolve_groups(r, env, Ls, n, tag):
         for _ in range(3):
             variants.append((r.below(2), r.shuffle(range(ns)), r.pick(Ls), r.below(2), r.below(4)))
         variants.append((1, list(range(ns)), p["L"], p["csc"], p["kind"]))
+        first = True
         for (reorder, perm, L, csc, kind) in variants:
             meta = dict(p); meta.update(reorder=reorder, perm=perm, L=L, csc=csc, kind=kind, cfg=f"reorder{reorder}/order{perm}/L{L}/csc{csc}/lu{kind}")
             cs.append(Case(bsolve_line(p, reorder, perm=perm, L=L, csc=csc, kind=kind), meta, "bsolve", oracle=oracle_bsolve,
                            group=((tag, gid), grp_cross_config), tags=["bsolve", "reorder=%d" % reorder]))
+            if first:
+                cs.append(noise_twin(p, meta, lambda q: bsolve_line(q, reorder, perm=perm, L=L, csc=csc, kind=kind), "bsolve", (tag, gid)))
+                first = False
     return cs
 
 def parse_solve(out):
@@ -512,11 +516,30 @@ def grp_bitwise(a, b):
         return f"implementation results differ bit-wise between equivalent runs [{a.kind}]"
     return None
 
+def noise_twin(p, meta, mkline, kind, gkey):
+    """the reference configuration of a group with every finite non-zero initial concentration multiplied by (1 + 2^-50):
+    the distance between its result and the reference's is the run's own sensitivity to rounding-sized perturbations"""
+    q = dict(p)
+    q["y"] = [v * (1.0 + 2.0 ** -50) if (v == v and abs(v) != float("inf")) else v for v in p["y"]]
+    m2 = dict(meta); m2["y"] = q["y"]; m2["noise_twin"] = True; m2["cfg"] = meta["cfg"] + "/perturbed"
+    return Case(mkline(q), m2, kind, compare=True, group=(gkey, grp_cross_config), tags=["noise_twin"])
+
 def grp_cross_config(a, b):
     """same problem, two configurations: same concentrations up to rounding when the step histories agree
     (when they differ, an accept/reject decision fell within rounding of its threshold or rounding was
     amplified over a long run: nothing is concluded)"""
     sa, sb = parse_solve(a.impl_out or ""), parse_solve(b.impl_out or "")
+    if b.meta.get("noise_twin"):
+        # measure, do not judge: per-component distance between the reference run and its rounding-perturbed twin
+        a.noise = None
+        if sa is not None and sb is not None and sa["status"] == sb["status"] and sa["stats"] == sb["stats"] and len(sa["y"]) == len(sb["y"]):
+            a.noise = [abs(u - v) if (u == u and v == v) else 0.0 for u, v in zip(sa["y"], sb["y"])]
+        else:
+            a.noise_diverged = True      # a 2^-50 perturbation already changes the history: nothing below is conclusive
+        return None
+    if getattr(a, "noise_diverged", False):
+        a.tags.append("chaotic_group_skipped")
+        return None
     if sa is None or sb is None:
         return None if (a.impl_out == b.impl_out) else f"one configuration failed: '{(a.impl_out or '')[:60]}' vs '{(b.impl_out or '')[:60]}'"
     if sa["status"] != sb["status"] or sa["stats"] != sb["stats"]:
@@ -528,6 +551,12 @@ def grp_cross_config(a, b):
         return first_attempt_disagreement(a, b)
     if sa["status"] in ("NaNDetected", "InfDetected"):
         return None     # the State then holds the overflowed attempt: no accuracy is promised
+    if sa["status"] == "AcceptingUnconvergedIntegration":
+        # backward Euler gave up: the State holds a Newton iterate that did NOT converge (clipped at zero on the way); such
+        # an iterate depends on the rounding of every solve -- the configurations agree with the model bit for bit, but not
+        # with each other to any useful tolerance (seen on the clean tree: three clusters of values 1e-3 apart)
+        a.tags.append("unconverged_newton_skipped")
+        return None
     if explosive(a.meta["y"], sa["y"]) or explosive(b.meta["y"], sb["y"]):
         a.tags.append("explosive_run_skipped")
         return None     # exponential growth amplifies rounding differences beyond the estimate below
@@ -542,7 +571,12 @@ def grp_cross_config(a, b):
             continue
         # a value that is rounding residue of the cell's large concentrations (cancellation) carries no relative accuracy
         scale = max(abs(u), abs(v), 1e-9 * ymax)
-        if abs(u - v) > rel * n * scale + 1e-300:
+        noise = getattr(a, "noise", None)
+        measured = 1e3 * noise[i] if noise and i < len(noise) else 0.0
+        if measured > 1e-3 * scale:
+            a.tags.append("ill_conditioned_skipped")
+            continue
+        if abs(u - v) > max(rel * n * scale, measured) + 1e-300:
             return (f"configurations disagree beyond rounding with identical step histories: y[{i}] = {u!r} ({a.meta.get('cfg')}) vs {v!r} "
                     f"({b.meta.get('cfg')}); steps {sa['stats']['steps']}")
     return None
@@ -1495,11 +1529,17 @@ def g_c12(r, tier, env, Ls):
         cfgs = [(L, csc, kind) for L in Ls for csc in (0, 1) for kind in range(4)]
         if tier == "quick":
             cfgs = [cfgs[0]] + [r.pick(cfgs) for _ in range(5)]
+        first = True
         for (L, csc, kind) in cfgs:
             meta = dict(p); meta.update(L=L, csc=csc, kind=kind, cfg=f"L{L}/csc{csc}/lu{kind}")
             perm = p["perm"] if r.chance(0.5) else r.shuffle(range(p["ns"]))
             cs.append(Case(problem_line(p, L=L, csc=csc, kind=kind, perm=perm, trace=1), meta, "solve-cfg",
                            group=(("c12", gid), grp_cross_config), tags=["L=%d" % L, "kind=%d" % kind]))
+            if first:
+                # the reference configuration once more with the initial state perturbed in the last bits: what "rounding"
+                # means for THIS problem is measured, not guessed
+                cs.append(noise_twin(p, meta, lambda q: problem_line(q, L=L, csc=csc, kind=kind, perm=perm, trace=1), "solve-cfg", ("c12", gid)))
+                first = False
     # the whole user path: Build (state reordering on/off, species listed in any order, tolerance properties) + Solve by name
     cs += gen_bsolve_groups(r, env, Ls, 25 if tier == "quick" else 400, "c12b")
     return cs
